@@ -103,6 +103,55 @@ template <class N> inline long double point (const Frac<N>& t, const N* p, const
     return x;
 }
 
+// ---- exact numbers a*W^2 + b*W + c with W = numeric_limits<T>::max() and small integer coefficients ------------
+// (stage "max-face": box faces AT +-max together with small-integer origins and directions). |b|,|c| stay far
+// below W, so the lexicographic comparison of (a,b,c) is the exact comparison; products never exceed degree 2
+// (checked). Conversion to T is exact for the coordinates used (pure +-W or pure small integers).
+template <class T> struct Big
+{
+    long long a = 0, b = 0, c = 0;
+    Big () {}
+    Big (long long v) : c (v) {}
+    Big (int v) : c (v) {}
+    static Big W (long long k = 1) { Big x; x.b = k; return x; }
+    friend Big operator+ (const Big& x, const Big& y) { Big r; r.a = x.a + y.a; r.b = x.b + y.b; r.c = x.c + y.c; return r; }
+    friend Big operator- (const Big& x, const Big& y) { Big r; r.a = x.a - y.a; r.b = x.b - y.b; r.c = x.c - y.c; return r; }
+    Big operator- () const { Big r; r.a = -a; r.b = -b; r.c = -c; return r; }
+    friend Big operator* (const Big& x, const Big& y)
+    {
+        if (x.a * y.b || x.b * y.a || x.a * y.a) abort (); // degree > 2 never occurs on this alphabet
+        Big r; r.a = x.a * y.c + x.b * y.b + x.c * y.a; r.b = x.b * y.c + x.c * y.b; r.c = x.c * y.c; return r;
+    }
+    static int cmp (const Big& x, const Big& y)
+    {
+        if (x.a != y.a) return x.a < y.a ? -1 : 1;
+        if (x.b != y.b) return x.b < y.b ? -1 : 1;
+        return x.c < y.c ? -1 : (x.c > y.c ? 1 : 0);
+    }
+    friend bool operator< (const Big& x, const Big& y) { return cmp (x, y) < 0; }
+    friend bool operator> (const Big& x, const Big& y) { return cmp (x, y) > 0; }
+    friend bool operator<= (const Big& x, const Big& y) { return cmp (x, y) <= 0; }
+    friend bool operator>= (const Big& x, const Big& y) { return cmp (x, y) >= 0; }
+    friend bool operator== (const Big& x, const Big& y) { return cmp (x, y) == 0; }
+    friend bool operator!= (const Big& x, const Big& y) { return cmp (x, y) != 0; }
+    explicit operator long double () const
+    {
+        const long double w = (long double) std::numeric_limits<T>::max ();
+        return (long double) a * w * w + (long double) b * w + (long double) c; // W^2 <= 2^2048: finite in x87 long double
+    }
+};
+
+// ---- per-stage options of one_case (defaults = the original behaviour) ------------------------------------------
+struct CaseOpt
+{
+    const char* cls     = nullptr; // appended to EVERY site name of the case: confines failures to the stage's input class
+    unsigned    negzero = 0;       // bit 0-2 dir.xyz, 3-5 pos.xyz, 6-8 min.xyz, 9-11 max.xyz: a zero component is passed as -0.0
+    long double cscale = 1, dscale = 1; // units (powers of two) of the box/origin numbers and of the direction numbers
+    int         regime = -1;       // >= 0: the stage supplies the regime (see below) instead of regime<T>()
+};
+// number of the oracle -> argument of the library (exact on every alphabet: <= 64 significant bits times a power of two)
+template <class T, class N> inline T conv (const N& v, long double unit) { return (T) ((long double) v * unit); }
+
 // Regime of a case on the power-of-two alphabet, a predicate on the INPUT (exact slab parameters t = D/d of the
 // axes with a non-zero direction component):
 //   1 = some non-zero |t| is below T's smallest normal number: t itself is not representable to relative
@@ -135,6 +184,55 @@ template <class T> inline int regime (const long double* mn, const long double* 
     return nover == 0 ? 0 : (nover == naxes ? 3 : 2);
 }
 
+template <class T> inline int regime (const Big<T>*, const Big<T>*, const Big<T>*, const Big<T>*) { return 0; }       // stage supplies it
+template <class T> inline int regime (const __int128*, const __int128*, const __int128*, const __int128*) { return 0; } // stage supplies it
+
+// A regime-1 case (some parameter underflows) is nevertheless decidable when no underflowing parameter can take part
+// in the decision, whatever it is rounded to (0, a denormal of either... the same sign, or +-min):
+//   * no parameter exceeds max (regimes 2/3 are not mixed in);
+//   * a direction component 0 whose origin coordinate is outside the slab decides "miss" by itself; otherwise
+//   * every underflowing LOWER parameter (0 < |lo_j| < min) requires tin >= min  (then fl(lo_j) <= min*3/4 < tin), and
+//     every underflowing UPPER parameter requires tout <= -min (then fl(hi_j) >= -min*3/4 > tout):
+//     tin = max lo and tout = min hi are then attained by normal parameters only, strictly, with or without the
+//     underflowing axis, and the entry/exit/ip points belong to those parameters.
+// (On the power-of-two alphabet a parameter is c*2^k with c in {1,2,3}: below min means <= 3/4 min, and its rounded
+//  value is at most that.) Such cases are judged like regime 0 under their own
+// ".t-underflows-on-non-binding-axis" sites; all other regime-1 cases stay outside the checked domain.
+template <class T, class N> inline bool underflow_is_harmless (const N*, const N*, const N*, const N*, const Truth<N>&) { return false; }
+template <class T> inline bool underflow_is_harmless (const long double* mn, const long double* mx, const long double* p, const long double* d, const Truth<long double>& tr)
+{
+    const long double tmin = (long double) std::numeric_limits<T>::min (), tmax = (long double) std::numeric_limits<T>::max ();
+    bool parmiss = false, lo_under = false, hi_under = false;
+    for (int i = 0; i < 3; ++i)
+    {
+        if (d[i] == 0) { parmiss = parmiss || p[i] < mn[i] || p[i] > mx[i]; continue; }
+        long double a = (mn[i] - p[i]) / d[i], b = (mx[i] - p[i]) / d[i]; // powers of two times 0..3: exact
+        if (a > b) std::swap (a, b);                                       // a = lower, b = upper parameter
+        if (fabsl (a) > tmax || fabsl (b) > tmax) return false;
+        if (a != 0 && fabsl (a) < tmin) lo_under = true;
+        if (b != 0 && fabsl (b) < tmin) hi_under = true;
+    }
+    if (parmiss) return true;
+    const long double tin = tr.tin.n / tr.tin.d, tout = tr.tout.n / tr.tout.d; // exact (same alphabet)
+    if (lo_under && !(tin >= tmin)) return false;
+    if (hi_under && !(tout <= -tmin)) return false;
+    return true;
+}
+
+// The remaining regime-1 cases with an exact HIT and no parameter beyond max get a one-sided check: rounding to
+// nearest is monotone (x <= y => fl(x) <= fl(y)), so lo_a <= tin <= tout <= hi_b for all axes a, b survives the
+// rounding of every individual parameter, whatever underflows: an exact hit must be reported as a hit (site
+// "<entry point>.truth.t-underflows.exact-hit"). (An exact miss by less than the underflow threshold may
+// legitimately be seen as a tie: not judged. Points are not judged either.)
+template <class T, class N> inline bool all_parameters_finite (const N*, const N*, const N*, const N*) { return false; }
+template <class T> inline bool all_parameters_finite (const long double* mn, const long double* mx, const long double* p, const long double* d)
+{
+    const long double tmax = (long double) std::numeric_limits<T>::max ();
+    for (int i = 0; i < 3; ++i)
+        if (d[i] != 0 && (fabsl ((mn[i] - p[i]) / d[i]) > tmax || fabsl ((mx[i] - p[i]) / d[i]) > tmax)) return false;
+    return true;
+}
+
 template <class T> inline std::string v3 (const Vec3<T>& v) { return "(" + vf::fmt (v.x) + "," + vf::fmt (v.y) + "," + vf::fmt (v.z) + ")"; }
 template <class T> inline const char* tname () { return sizeof (T) == 4 ? "float" : "double"; }
 template <class T> inline std::string casestr (const Box<Vec3<T>>& b, const Line3<T>& r)
@@ -144,19 +242,20 @@ template <class T> inline std::string casestr (const Box<Vec3<T>>& b, const Line
 
 struct Tally
 {
-    long long cases = 0, excluded = 0, overflow = 0, alloverflow = 0, empty = 0, flat = 0, inside = 0, hit_outside = 0, behind = 0, miss = 0, graze = 0, axis_par = 0, trans = 0;
+    long long cases = 0, excluded = 0, overflow = 0, alloverflow = 0, empty = 0, flat = 0, inside = 0, hit_outside = 0, behind = 0, miss = 0, graze = 0, axis_par = 0, trans = 0, nbu = 0, uhit = 0;
     double    worst = 0;
     void operator+= (const Tally& o)
     {
         cases += o.cases; excluded += o.excluded; overflow += o.overflow; alloverflow += o.alloverflow; empty += o.empty; flat += o.flat; inside += o.inside; hit_outside += o.hit_outside; behind += o.behind;
-        miss += o.miss; graze += o.graze; axis_par += o.axis_par; trans += o.trans; if (o.worst > worst) worst = o.worst;
+        miss += o.miss; graze += o.graze; axis_par += o.axis_par; trans += o.trans; nbu += o.nbu; uhit += o.uhit; if (o.worst > worst) worst = o.worst;
     }
 };
 
 // check one reported point against the exact one; `which` names the site prefix
 template <class T, class N>
 inline void check_point (const std::string& s_box, const std::string& s_surf, const std::string& s_acc, const Vec3<T>& got, const Frac<N>& t,
-                         const N* mn, const N* mx, const N* p, const N* d, const Box<Vec3<T>>& b, const Line3<T>& r, Tally& tl, bool track, const char* what)
+                         const N* mn, const N* mx, const N* p, const N* d, const Box<Vec3<T>>& b, const Line3<T>& r, Tally& tl, bool track, const char* what,
+                         long double unit = 1)
 {
     bool inbox = true, surf = false;
     for (int i = 0; i < 3; ++i)
@@ -170,6 +269,7 @@ inline void check_point (const std::string& s_box, const std::string& s_surf, co
     for (int i = 0; i < 3; ++i)
     {
         long double M, x = point (t, p, d, i, M);
+        x *= unit; M *= unit; // (power of two: exact)
         long double tol = 2 * ex::eps<T> () * M + 2 * (long double) std::numeric_limits<T>::denorm_min ();
         long double err = fabsl ((long double) got[i] - x);
         if (!(err <= tol))
@@ -189,34 +289,57 @@ inline void check_point (const std::string& s_box, const std::string& s_surf, co
 }
 
 // one (box, origin, direction) case through the three entry points
-template <class T, class N> inline void one_case (const N* mn, const N* mx, const N* p, const N* d, Tally& tl)
+template <class T, class N> inline void one_case (const N* mn, const N* mx, const N* p, const N* d, Tally& tl, const CaseOpt& opt = CaseOpt ())
 {
     const Truth<N> tr = slab<N> (mn, mx, p, d);
-    const int      rg = tr.empty ? 0 : regime<T> (mn, mx, p, d);
-    if (rg == 1) { ++tl.excluded; return; }
+    int            rg = tr.empty ? 0 : (opt.regime >= 0 ? opt.regime : regime<T> (mn, mx, p, d));
+    bool           nbu = false, hitonly = false;
+    if (rg == 1)
+    {
+        if (underflow_is_harmless<T> (mn, mx, p, d, tr)) { nbu = true; rg = 0; ++tl.nbu; }
+        else if (tr.line && all_parameters_finite<T> (mn, mx, p, d)) { hitonly = true; ++tl.uhit; }
+        else { ++tl.excluded; return; }
+    }
     if (rg == 2) ++tl.overflow;
     if (rg == 3) ++tl.alloverflow;
     // ordinary regime: one site per entry point and relation; overflow regimes: one site per entry point and regime
     // (the relation that failed is in the expected/got text)
-    auto site = [rg] (const char* fn, const char* rel) {
-        return rg == 3 ? std::string (fn) + ".every-t-overflows" : rg == 2 ? std::string (fn) + ".some-t-overflows" : std::string (fn) + "." + rel;
+    const std::string sfx = opt.cls ? opt.cls : (nbu ? ".t-underflows-on-non-binding-axis" : "");
+    auto site = [rg, &sfx] (const char* fn, const char* rel) {
+        return (rg == 3 ? std::string (fn) + ".every-t-overflows" : rg == 2 ? std::string (fn) + ".some-t-overflows" : std::string (fn) + "." + rel) + sfx;
     };
-    Box<Vec3<T>> b (Vec3<T> ((T) mn[0], (T) mn[1], (T) mn[2]), Vec3<T> ((T) mx[0], (T) mx[1], (T) mx[2]));
+    Box<Vec3<T>> b (Vec3<T> (conv<T> (mn[0], opt.cscale), conv<T> (mn[1], opt.cscale), conv<T> (mn[2], opt.cscale)),
+                    Vec3<T> (conv<T> (mx[0], opt.cscale), conv<T> (mx[1], opt.cscale), conv<T> (mx[2], opt.cscale)));
     Line3<T>     r;
-    r.pos = Vec3<T> ((T) p[0], (T) p[1], (T) p[2]);
-    r.dir = Vec3<T> ((T) d[0], (T) d[1], (T) d[2]);
+    r.pos = Vec3<T> (conv<T> (p[0], opt.cscale), conv<T> (p[1], opt.cscale), conv<T> (p[2], opt.cscale));
+    r.dir = Vec3<T> (conv<T> (d[0], opt.dscale), conv<T> (d[1], opt.dscale), conv<T> (d[2], opt.dscale));
+    if (opt.negzero)
+        for (int i = 0; i < 3; ++i)
+        {   // -0.0 is the number 0: the oracle is unchanged
+            if ((opt.negzero >> i & 1) && r.dir[i] == 0) r.dir[i] = -r.dir[i];
+            if ((opt.negzero >> (3 + i) & 1) && r.pos[i] == 0) r.pos[i] = -r.pos[i];
+            if ((opt.negzero >> (6 + i) & 1) && b.min[i] == 0) b.min[i] = -b.min[i];
+            if ((opt.negzero >> (9 + i) & 1) && b.max[i] == 0) b.max[i] = -b.max[i];
+        }
     const T      SENT = (T) 777;
     Vec3<T>      ip (SENT), en (SENT), exi (SENT);
     const bool g2 = intersects (b, r);
     const bool g3 = intersects (b, r, ip);
     const bool gl = findEntryAndExitPoints (r, b, en, exi);
     tl.trans += 3; ++tl.cases;
+    if (hitonly)
+    {   // one-sided (see all_parameters_finite)
+        if (tr.ray && !g2) fail_lazy ("intersects(box,ray).truth.t-underflows.exact-hit", [&] { return casestr (b, r); }, [&] { return std::string ("truth value true"); }, [&] { return vf::fmt (g2); });
+        if (tr.ray && !g3) fail_lazy ("intersects(box,ray,ip).truth.t-underflows.exact-hit", [&] { return casestr (b, r); }, [&] { return std::string ("truth value true"); }, [&] { return vf::fmt (g3); });
+        if (!gl) fail_lazy ("findEntryAndExitPoints.truth.t-underflows.exact-hit", [&] { return casestr (b, r); }, [&] { return std::string ("truth value true"); }, [&] { return vf::fmt (gl); });
+        return;
+    }
     if (g2 != tr.ray)
-        fail_lazy (tr.empty ? std::string ("intersects(box,ray).truth.empty-box") : site ("intersects(box,ray)", "truth"), [&] { return casestr (b, r); }, [&] { return "truth value " + vf::fmt (tr.ray); }, [&] { return vf::fmt (g2); });
+        fail_lazy (tr.empty ? "intersects(box,ray).truth.empty-box" + sfx : site ("intersects(box,ray)", "truth"), [&] { return casestr (b, r); }, [&] { return "truth value " + vf::fmt (tr.ray); }, [&] { return vf::fmt (g2); });
     if (g3 != tr.ray)
-        fail_lazy (tr.empty ? std::string ("intersects(box,ray,ip).truth.empty-box") : site ("intersects(box,ray,ip)", "truth"), [&] { return casestr (b, r); }, [&] { return "truth value " + vf::fmt (tr.ray); }, [&] { return vf::fmt (g3); });
+        fail_lazy (tr.empty ? "intersects(box,ray,ip).truth.empty-box" + sfx : site ("intersects(box,ray,ip)", "truth"), [&] { return casestr (b, r); }, [&] { return "truth value " + vf::fmt (tr.ray); }, [&] { return vf::fmt (g3); });
     if (gl != tr.line)
-        fail_lazy (tr.empty ? std::string ("findEntryAndExitPoints.truth.empty-box") : site ("findEntryAndExitPoints", "truth"), [&] { return casestr (b, r); }, [&] { return "truth value " + vf::fmt (tr.line); }, [&] { return vf::fmt (gl); });
+        fail_lazy (tr.empty ? "findEntryAndExitPoints.truth.empty-box" + sfx : site ("findEntryAndExitPoints", "truth"), [&] { return casestr (b, r); }, [&] { return "truth value " + vf::fmt (tr.line); }, [&] { return vf::fmt (gl); });
     if (g3 && tr.ray)
     {
         if (tr.inside)
@@ -225,12 +348,12 @@ template <class T, class N> inline void one_case (const N* mn, const N* mx, cons
                 fail_lazy (site ("intersects(box,ray,ip)", "ip-is-origin-when-inside"), [&] { return casestr (b, r); }, [&] { return "ip == origin " + v3 (r.pos); }, [&] { return v3 (ip); });
         }
         else
-            check_point<T, N> (site ("intersects(box,ray,ip)", "ip-in-box"), site ("intersects(box,ray,ip)", "ip-on-surface"), site ("intersects(box,ray,ip)", "ip-accuracy"), ip, tr.tin, mn, mx, p, d, b, r, tl, rg == 0, "ip");
+            check_point<T, N> (site ("intersects(box,ray,ip)", "ip-in-box"), site ("intersects(box,ray,ip)", "ip-on-surface"), site ("intersects(box,ray,ip)", "ip-accuracy"), ip, tr.tin, mn, mx, p, d, b, r, tl, rg == 0 && !nbu, "ip", opt.cscale);
     }
     if (gl && tr.line)
     {
-        check_point<T, N> (site ("findEntryAndExitPoints", "entry-in-box"), site ("findEntryAndExitPoints", "entry-on-surface"), site ("findEntryAndExitPoints", "entry-accuracy"), en, tr.tin, mn, mx, p, d, b, r, tl, rg == 0, "entry");
-        check_point<T, N> (site ("findEntryAndExitPoints", "exit-in-box"), site ("findEntryAndExitPoints", "exit-on-surface"), site ("findEntryAndExitPoints", "exit-accuracy"), exi, tr.tout, mn, mx, p, d, b, r, tl, rg == 0, "exit");
+        check_point<T, N> (site ("findEntryAndExitPoints", "entry-in-box"), site ("findEntryAndExitPoints", "entry-on-surface"), site ("findEntryAndExitPoints", "entry-accuracy"), en, tr.tin, mn, mx, p, d, b, r, tl, rg == 0 && !nbu, "entry", opt.cscale);
+        check_point<T, N> (site ("findEntryAndExitPoints", "exit-in-box"), site ("findEntryAndExitPoints", "exit-on-surface"), site ("findEntryAndExitPoints", "exit-accuracy"), exi, tr.tout, mn, mx, p, d, b, r, tl, rg == 0 && !nbu, "exit", opt.cscale);
     }
     // input classes (from the oracle, i.e. predicates on the input)
     if (tr.empty) ++tl.empty;
@@ -250,5 +373,9 @@ template <class T> bool run_lattice (bool thorough); // c14_lat.hpp
 template <class T> bool run_extreme (bool thorough); // c14_ext.hpp
 template <class T> bool run_rounding (bool thorough); // c14_lat.hpp
 template <class T> bool run_elongated (bool thorough); // c14_lat.hpp
+template <class T> bool run_maxface (bool thorough); // c14_max.hpp
+template <class T> bool run_signed (bool thorough);  // c14_max.hpp
+template <class T> bool run_negzero (bool thorough); // c14_max.hpp
+template <class T> bool run_guard (bool thorough);   // c14_guard.hpp
 
 } // namespace c14
